@@ -865,3 +865,103 @@ func TestVerif_C16_Attributes(t *testing.T) {
 		}
 	})
 }
+
+// TestVerif_C16_EqualityParsed: equality laws over candidates that come from text, where (unlike through the
+// constructors) the same extension entry may occur several times.  Reference: two candidates with the same
+// base line are DeepEqual iff their extension lists are equal as multisets of (key, value).
+func TestVerif_C16_EqualityParsed(t *testing.T) {
+	st := vfNewStats(t)
+	entry := rapid.Custom(func(t *rapid.T) CandidateExtension {
+		return CandidateExtension{
+			Key:   rapid.SampledFrom([]string{"x", "y", "z", "generation", "network-cost"}).Draw(t, "key"),
+			Value: rapid.SampledFrom([]string{"1", "2", "0"}).Draw(t, "value"),
+		}
+	})
+	rapid.Check(t, func(rt *rapid.T) {
+		xs := rapid.SliceOfN(entry, 0, 5).Draw(rt, "xExts")
+		var ys []CandidateExtension
+		switch rapid.IntRange(0, 5).Draw(rt, "relation") {
+		case 0:
+			ys = rapid.SliceOfN(entry, 0, 5).Draw(rt, "yExts")
+		case 1: // permutation
+			ys = rapid.Permutation(xs).Draw(rt, "perm")
+		case 2: // same length, one entry replaced by a copy of another entry of x
+			ys = append([]CandidateExtension{}, xs...)
+			if len(ys) >= 2 {
+				i, j := rapid.IntRange(0, len(ys)-1).Draw(rt, "i"), rapid.IntRange(0, len(ys)-1).Draw(rt, "j")
+				ys[i] = ys[j]
+			}
+		case 3: // x gets a duplicate, y a fresh entry: equal lengths, x ⊂ y as sets
+			if len(xs) >= 1 {
+				ys = append(append([]CandidateExtension{}, xs...), entry.Draw(rt, "fresh"))
+				xs = append(append([]CandidateExtension{}, xs...), xs[rapid.IntRange(0, len(xs)-1).Draw(rt, "dup")])
+			}
+		case 4: // y is x with one entry duplicated and another dropped
+			ys = append([]CandidateExtension{}, xs...)
+			if len(ys) >= 2 {
+				ys[len(ys)-1] = ys[0]
+			}
+		case 5:
+			ys = append([]CandidateExtension{}, xs...)
+		}
+		line := func(es []CandidateExtension) string {
+			s := "1938809241 1 udp 2122262783 10.0.0.7 5000 typ host"
+			for _, e := range es {
+				s += " " + e.Key + " " + e.Value
+			}
+
+			return s
+		}
+		cx, err := UnmarshalCandidate(line(xs))
+		if err != nil {
+			rt.Fatalf("harness: %v (%q)", err, line(xs))
+		}
+		cy, err := UnmarshalCandidate(line(ys))
+		if err != nil {
+			rt.Fatalf("harness: %v (%q)", err, line(ys))
+		}
+		count := func(es []CandidateExtension) map[CandidateExtension]int {
+			m := map[CandidateExtension]int{}
+			for _, e := range es {
+				m[e]++
+			}
+
+			return m
+		}
+		mx, my := count(xs), count(ys)
+		same := len(xs) == len(ys) && len(mx) == len(my)
+		for k, v := range mx {
+			if my[k] != v {
+				same = false
+			}
+		}
+		dup := false
+		for _, v := range mx {
+			if v > 1 {
+				dup = true
+			}
+		}
+		for _, v := range my {
+			if v > 1 {
+				dup = true
+			}
+		}
+		desc := fmt.Sprintf("x=%q y=%q", line(xs), line(ys))
+		dxy, dyx := cx.DeepEqual(cy), cy.DeepEqual(cx)
+		st.Record(vfHashStr(desc), dup && len(xs) == len(ys), fmt.Sprintf("repeated-entry:%v", dup), fmt.Sprintf("same-multiset:%v", same))
+		if dup && len(xs) == len(ys) && st.WantSample() {
+			st.Sample(func() string { return fmt.Sprintf("%s DeepEqual=%v/%v reference=%v", desc, dxy, dyx, same) })
+		}
+		c16Reflexive(st, rt, cx, desc)
+		c16Reflexive(st, rt, cy, desc)
+		if !cx.Equal(cy) || !cy.Equal(cx) {
+			st.Fail(rt, "C16/equality/equal-depends-on-extensions", "same base line but Equal is false: %s", desc)
+		}
+		if dxy != dyx {
+			st.Fail(rt, "C16/equality/deepequal-not-symmetric", "x.DeepEqual(y)=%v y.DeepEqual(x)=%v %s", dxy, dyx, desc)
+		}
+		if dxy != same {
+			st.Fail(rt, "C16/equality/deepequal-vs-multiset", "DeepEqual=%v but the extension lists are equal as multisets: %v; %s", dxy, same, desc)
+		}
+	})
+}
